@@ -16,7 +16,12 @@
 
    A record is an opaque payload R; the only thing ever done to a record is projecting a
    column (for_each variable / update-mode pass-through fields), modelled by [col].
-   random.shuffle is Fisher-Yates driven by an explicit oracle stream of _randbelow results. *)
+   random.shuffle is Fisher-Yates driven by an explicit oracle stream of _randbelow results.
+   Memoisation of Dataset calls (which evaluations share an iterator: `name`, function, call
+   site; the recalculate_every_time bypass) is [key_of] / [memo_get].
+   Further down (outside the section): the CSV record reader the CSV iterators rely on —
+   utf-8-sig, universal-newline line iteration, the csv.reader state machine, csv.DictReader —
+   as an executable model ([csv_rows], [csv_records]) next to a writer ([write_file]). *)
 From SFV Require Import Base.
 
 Inductive mode := Linear | Shuffled.
@@ -63,8 +68,9 @@ Definition shuffle (l : list R) (orc : list Z) : result (list R * list Z) :=
 (* ------------------------------------------------------------------ the iterator *)
 
 (* what a Dataset.iterate / Dataset.shuffle call denotes: the file's records in file order,
-   the iteration mode, the `repeat` keyword (default True) *)
-Record dsref := mkDs { d_data : list R; d_mode : mode; d_repeat : bool }.
+   the function called (iterate = Linear, shuffle = Shuffled), the `repeat` keyword (default True)
+   and the `name` keyword (None: absent or falsy) *)
+Record dsref := mkDs { d_data : list R; d_mode : mode; d_repeat : bool; d_name : option nat }.
 
 (* a live PluginResultIterator: self.repeat is mutable (for_each turns it off),
    i_rest = what self.results still has to deliver in the current pass *)
@@ -149,16 +155,40 @@ with tmpls :=
 | TNil
 | TCons (t : tmpl) (r : tmpls).
 
+(* plugins.evaluate_memorable_function: the key under which a call's state is remembered in
+   Interpreter.instance_states is (func.__module__, func.__name__, user_key) with
+     user_key = kwargs.get("name") or (unique_context_identifier, args, kwargs.items())
+   — a named call shares its state with every call of the same function under the same name,
+   wherever it is written; an unnamed call has a state of its own (its call site: the id of the
+   StructuredValue; the arguments are the same at every evaluation of a static call site). *)
+Inductive key := KSite (sid : nat) | KName (fn : mode) (nm : nat).
+
+Definition mode_eqb (a b : mode) : bool :=
+  match a, b with Linear, Linear => true | Shuffled, Shuffled => true | _, _ => false end.
+
+Definition key_eqb (a b : key) : bool :=
+  match a, b with
+  | KSite x, KSite y => Nat.eqb x y
+  | KName f x, KName g y => mode_eqb f g && Nat.eqb x y
+  | _, _ => false
+  end.
+
+Definition key_of (sid : nat) (d : dsref) : key :=
+  match d_name d with
+  | Some nm => KName (d_mode d) nm
+  | None => KSite sid
+  end.
+
 Record row := mkRow {
   r_tid : nat;                       (* which template wrote the row            *)
   r_fe : option R;                   (* value of the for_each variable          *)
   r_index : Z;                       (* child_index                             *)
-  r_cons : list (nat * R);           (* records consumed, by call site          *)
+  r_cons : list (key * R);           (* records consumed, by state key, in field order *)
   r_pass : list C                    (* projected columns                       *)
 }.
 
 Record st := mkSt {
-  s_sites : list (nat * iter);       (* Interpreter.instance_states             *)
+  s_sites : list (key * iter);       (* Interpreter.instance_states             *)
   s_orc : list Z;                    (* remaining _randbelow results            *)
   s_out : list row                   (* rows written so far                     *)
 }.
@@ -169,47 +199,52 @@ Inductive res (A : Type) := ROk (a : A) (s : st) | RErr (e : err) (out : list ro
 Arguments ROk {A} a s.
 Arguments RErr {A} e out.
 
-Fixpoint lookup (sid : nat) (l : list (nat * iter)) : option iter :=
+Fixpoint lookup (k0 : key) (l : list (key * iter)) : option iter :=
   match l with
   | [] => None
-  | (k, v) :: r => if Nat.eqb k sid then Some v else lookup sid r
+  | (k, v) :: r => if key_eqb k k0 then Some v else lookup k0 r
   end.
 
-Fixpoint store (sid : nat) (v : iter) (l : list (nat * iter)) : list (nat * iter) :=
+Fixpoint store (k0 : key) (v : iter) (l : list (key * iter)) : list (key * iter) :=
   match l with
-  | [] => [(sid, v)]
-  | (k, w) :: r => if Nat.eqb k sid then (k, v) :: r else (k, w) :: store sid v r
+  | [] => [(k0, v)]
+  | (k, w) :: r => if key_eqb k k0 then (k, v) :: r else (k, w) :: store k0 v r
   end.
 
-(* A Dataset.* field of a row.  @memorable: under recalculate_every_time the function is
-   simply called (a new iterator each time, stored nowhere); otherwise the iterator of this
-   call site is fetched from / created in instance_states.  Then _generate_fields draws.
+(* evaluate_memorable_function(context, func, self, args, kwargs):
+     if context.interpreter.current_context.recalculate_every_time:
+         return func(self, *args, **kwargs)             -- whatever the keywords, also `name`
+     key = (module, func name, kwargs.get("name") or (call site, args, kwargs))
+     return interpreter.get_contextual_state(name=key, make_state_func=lambda: func(...))
+   The result says whether the iterator lives in instance_states (then the caller's draws
+   advance the remembered state) or is a fresh one that nothing else can see. *)
+Definition memo_get (recalc : bool) (sid : nat) (d : dsref) (s : st)
+  : result (iter * list Z * option key) :=
+  if recalc then
+    do '(it, orc1) <- new_iter d (s_orc s); Ok (it, orc1, None)
+  else
+    let k := key_of sid d in
+    match lookup k (s_sites s) with
+    | Some it => Ok (it, s_orc s, Some k)
+    | None => do '(it, orc1) <- new_iter d (s_orc s); Ok (it, orc1, Some k)
+    end.
+
+(* A Dataset.* field of a row: the memorable call, then _generate_fields draws one record.
    Since the repair of ForEachVariableDefinition.evaluate the flag is on only inside a for_each
    expression, so every field of a run started by run_recipe is drawn with recalc = false. *)
 Definition site_draw (recalc : bool) (sid : nat) (d : dsref) (s : st) : res R :=
-  if recalc then
-    match new_iter d (s_orc s) with
+  match memo_get recalc sid d s with
+  | Err e => RErr e (s_out s)
+  | Ok (it, orc1, ko) =>
+    match field_draw it orc1 with
     | Err e => RErr e (s_out s)
-    | Ok (it, orc1) =>
-      match field_draw it orc1 with
-      | Err e => RErr e (s_out s)
-      | Ok (x, _, orc2) => ROk x (mkSt (s_sites s) orc2 (s_out s))
-      end
+    | Ok (x, it', orc2) =>
+      ROk x (mkSt (match ko with Some k => store k it' (s_sites s) | None => s_sites s end)
+                  orc2 (s_out s))
     end
-  else
-    match (match lookup sid (s_sites s) with
-           | Some it => Ok (it, s_orc s)
-           | None => new_iter d (s_orc s)
-           end) with
-    | Err e => RErr e (s_out s)
-    | Ok (it, orc1) =>
-      match field_draw it orc1 with
-      | Err e => RErr e (s_out s)
-      | Ok (x, it', orc2) => ROk x (mkSt (store sid it' (s_sites s)) orc2 (s_out s))
-      end
-    end.
+  end.
 
-Fixpoint draw_sites (recalc : bool) (sites : list (nat * dsref)) (s : st) : res (list (nat * R)) :=
+Fixpoint draw_sites (recalc : bool) (sites : list (nat * dsref)) (s : st) : res (list (key * R)) :=
   match sites with
   | [] => ROk [] s
   | (sid, d) :: rest =>
@@ -218,7 +253,7 @@ Fixpoint draw_sites (recalc : bool) (sites : list (nat * dsref)) (s : st) : res 
     | ROk x s1 =>
       match draw_sites recalc rest s1 with
       | RErr e o => RErr e o
-      | ROk l s2 => ROk ((sid, x) :: l) s2
+      | ROk l s2 => ROk ((key_of sid d, x) :: l) s2
       end
     end
   end.
@@ -287,11 +322,14 @@ Fixpoint gen_rows (t : tmpl) (rc : bool) (s : st) {struct t} : res unit :=
     | LCount m => count_loop (one_row rc None) m 0 s
     | LForEach d =>
       (* ForEachVariableDefinition.evaluate: recalculate_every_time is True only while the
-         for_each expression is rendered (a fresh iterator at every evaluation) and is then
-         restored, so the rows are generated under the inherited flag; ret.repeat = False *)
-      match new_iter d (s_orc s) with
+         for_each expression is rendered — the memorable call bypasses instance_states, also
+         when the call has a `name` (a fresh iterator at every evaluation, the remembered state
+         of that name is neither used nor touched) — and is then restored, so the rows are
+         generated under the inherited flag; ret.repeat = False.  (The call-site id is not
+         looked at under the flag.) *)
+      match memo_get true 0%nat d s with
       | Err e => RErr e (s_out s)
-      | Ok (it, orc1) =>
+      | Ok (it, orc1, _) =>
         each_loop (fun x => one_row rc (Some x)) (i_rest it) 0
                   (mkSt (s_sites s) orc1 (s_out s))
       end
@@ -334,7 +372,7 @@ Definition build_update (ts : tmpls) (input : list R) (passthrough : list nat) :
   | TCons (Tmpl tid lp sites pass nested friends) TNil =>
     match lp with
     | LCount _ => Err (DGE "Update templates should have no 'count'")
-    | _ => Ok (TCons (Tmpl tid (LForEach (mkDs input Linear false)) sites
+    | _ => Ok (TCons (Tmpl tid (LForEach (mkDs input Linear false None)) sites
                            (pass ++ passthrough) nested friends) TNil)
     end
   | _ => Err (DGE "Update recipes should have a single object declaration.")
@@ -349,7 +387,7 @@ Definition run_update (ts : tmpls) (input : list R) (passthrough : list nat) (or
 
 End Model.
 
-Arguments mkDs {R} _ _ _.
+Arguments mkDs {R} _ _ _ _.
 Arguments Tmpl {R} _ _ _ _ _ _.
 Arguments TNil {R}.
 Arguments TCons {R} _ _.
@@ -374,11 +412,240 @@ Definition rec_col (r : rec) (i : nat) : option (list Z) := option_map render_ce
 Definition cell_eqb : cell -> cell -> bool := option_eqb (list_eqb Z.eqb).
 Definition rec_eqb : rec -> rec -> bool := list_eqb cell_eqb.
 
+(* ------------------------------------------------------------------ the CSV record reader *)
+
+(* What CSVDatasetLinearIterator / CSVDatasetRandomPermutationIterator read: the file is opened with
+   open(path, 'r', newline='', encoding='utf-8-sig') and handed to csv.DictReader (default dialect
+   excel: delimiter comma, quotechar double quote, doublequote, no escapechar, no skipinitialspace, not
+   strict).  Transcribed: Modules/_csv.c parse_process_char / Reader_iternext (CPython 3.12),
+   Lib/csv.py DictReader.__next__ / fieldnames, and the line iteration of a text file in
+   universal-newlines mode without translation.  A text is a list of code points (the UTF-8
+   decoding itself is not modelled). *)
+Definition LF : Z := 10.
+Definition CR : Z := 13.
+Definition COMMA : Z := 44.
+Definition QUOTE : Z := 34.
+Definition BOMC : Z := 65279.             (* U+FEFF *)
+Definition FIELD_LIMIT : Z := 131072.     (* csv.field_size_limit() *)
+
+(* encoding utf-8-sig: one leading U+FEFF is not part of the text (also after seek(0)) *)
+Definition strip_bom (t : list Z) : list Z :=
+  match t with
+  | c :: r => if c =? BOMC then r else t
+  | [] => []
+  end.
+
+(* The reader is fed the lines of the file (newline='': a line ends after LF, after CR LF, or
+   after a CR that is not followed by LF; the terminator stays in the line; a last line without
+   terminator is a line) and, after the characters of each line, the pseudo-character EOL.
+   [eolize pcr mid t] is that stream of symbols (Some c = character, None = EOL) for the rest t of
+   the text; pcr: the previous character was CR (its line ends here unless LF follows);
+   mid: the current line has characters already. *)
+Fixpoint eolize (pcr mid : bool) (t : list Z) : list (option Z) :=
+  match t with
+  | [] => if pcr || mid then [None] else []
+  | c :: r =>
+    (if pcr && negb (c =? LF) then [None] else []) ++
+    (if c =? LF then Some c :: None :: eolize false false r
+     else if c =? CR then Some c :: eolize true false r
+     else Some c :: eolize false true r)
+  end.
+
+Inductive cstate := StartRecord | StartField | InField | InQuoted | QuoteInQuoted | EatCRNL.
+
+(* ReaderObj: state, the fields of the record so far (latest first), the characters of the field
+   so far (latest first) *)
+Record rd := mkRd { rd_state : cstate; rd_fields : list (list Z); rd_field : list Z }.
+
+Definition is_nl (c : Z) : bool := (c =? LF) || (c =? CR).
+
+(* parse_add_char *)
+Definition add_char (s : rd) (c : Z) (st' : cstate) : result rd :=
+  if Z.of_nat (length (rd_field s)) <? FIELD_LIMIT
+  then Ok (mkRd st' (rd_fields s) (c :: rd_field s))
+  else Err (Internal "_csv.Error: field larger than field limit").
+
+(* parse_save_field *)
+Definition save_field (s : rd) (st' : cstate) : rd :=
+  mkRd st' (rev (rd_field s) :: rd_fields s) [].
+
+Definition set_state (s : rd) (st' : cstate) : rd := mkRd st' (rd_fields s) (rd_field s).
+
+(* case START_FIELD (also reached by falling through from START_RECORD) *)
+Definition start_field (s : rd) (c : option Z) : result rd :=
+  match c with
+  | None => Ok (save_field s StartRecord)
+  | Some ch =>
+    if is_nl ch then Ok (save_field s EatCRNL)
+    else if ch =? QUOTE then Ok (set_state s InQuoted)
+    else if ch =? COMMA then Ok (save_field s StartField)
+    else add_char s ch InField
+  end.
+
+(* parse_process_char for the excel dialect *)
+Definition csv_step (s : rd) (c : option Z) : result rd :=
+  match rd_state s with
+  | StartRecord =>
+    match c with
+    | None => Ok s                                     (* empty line: return [] *)
+    | Some ch => if is_nl ch then Ok (set_state s EatCRNL) else start_field s c
+    end
+  | StartField => start_field s c
+  | InField =>
+    match c with
+    | None => Ok (save_field s StartRecord)
+    | Some ch =>
+      if is_nl ch then Ok (save_field s EatCRNL)
+      else if ch =? COMMA then Ok (save_field s StartField)
+      else add_char s ch InField
+    end
+  | InQuoted =>
+    match c with
+    | None => Ok s
+    | Some ch => if ch =? QUOTE then Ok (set_state s QuoteInQuoted) else add_char s ch InQuoted
+    end
+  | QuoteInQuoted =>
+    match c with
+    | None => Ok (save_field s StartRecord)
+    | Some ch =>
+      if ch =? QUOTE then add_char s ch InQuoted       (* a doubled quote inside quotes is one quote *)
+      else if ch =? COMMA then Ok (save_field s StartField)
+      else if is_nl ch then Ok (save_field s EatCRNL)
+      else add_char s ch InField                       (* not strict: text after the closing quote *)
+    end
+  | EatCRNL =>
+    match c with
+    | None => Ok (set_state s StartRecord)
+    | Some ch => if is_nl ch then Ok s
+                 else Err (Internal "_csv.Error: new-line character seen in unquoted field")
+    end
+  end.
+
+Definition rd0 : rd := mkRd StartRecord [] [].
+
+(* Reader_iternext, for all records of the input: a record is complete when the state is
+   START_RECORD after the EOL of a line; at the end of the input a record that is under way inside
+   a quoted field is returned as it is (not strict). acc = the records so far, latest first. *)
+Fixpoint csv_run (s : rd) (acc : list (list (list Z))) (syms : list (option Z))
+  : result (list (list (list Z))) :=
+  match syms with
+  | [] =>
+    match rd_field s, rd_state s with
+    | [], StartRecord => Ok (rev acc)
+    | [], InQuoted => Ok (rev (rev (rev (rd_field s) :: rd_fields s) :: acc))
+    | [], _ => Ok (rev acc)
+    | _ :: _, _ => Ok (rev (rev (rev (rd_field s) :: rd_fields s) :: acc))
+    end
+  | c :: r =>
+    do s' <- csv_step s c;
+    match c, rd_state s' with
+    | None, StartRecord => csv_run rd0 (rev (rd_fields s') :: acc) r
+    | _, _ => csv_run s' acc r
+    end
+  end.
+
+(* list(csv.reader(f)) for the text of a file *)
+Definition csv_rows (text : list Z) : result (list (list (list Z))) :=
+  csv_run rd0 [] (eolize false false (strip_bom text)).
+
+(* DictReader: the first row (blank or not) is the header; blank rows after it are skipped; a row
+   shorter than the header is filled with None (restval), a longer one gets the key None
+   (restkey), which Snowfakery's plugin_result turns into a DataGenError when the row is reached.
+   Records are the cells in header order (header names are taken to be distinct). *)
+Definition is_blank (r : list (list Z)) : bool := match r with [] => true | _ => false end.
+
+Definition dict_record (nh : nat) (r : list (list Z)) : result (list (option (list Z))) :=
+  if Nat.ltb nh (length r) then Err (DGE "Your CSV row has more columns than the CSV header")
+  else Ok (map Some r ++ repeat None (nh - length r)).
+
+Fixpoint all_ok {A} (l : list (result A)) : result (list A) :=
+  match l with
+  | [] => Ok []
+  | Ok x :: r => do xs <- all_ok r; Ok (x :: xs)
+  | Err e :: _ => Err e
+  end.
+
+Definition dict_reader (rows : list (list (list Z)))
+  : option (list (list Z)) * list (result (list (option (list Z)))) :=
+  match rows with
+  | [] => (None, [])
+  | h :: rest => (Some h, map (dict_record (length h)) (filter (fun r => negb (is_blank r)) rest))
+  end.
+
+(* header and records of a file none of whose rows is longer than the header *)
+Definition csv_records (text : list Z) : result (option (list (list Z)) * list rec) :=
+  do rows <- csv_rows text;
+  let '(h, rs) := dict_reader rows in
+  do recs <- all_ok rs; Ok (h, recs).
+
+(* the writer the generated files come from (harness render_csv; any RFC-4180 style writer): a
+   cell is written bare or between quotes with inner quotes doubled, cells are joined by commas,
+   a row ends with LF or CR LF; a last row may come without terminator *)
+Record wcell := mkCell { w_text : list Z; w_quoted : bool }.
+Record wrow := mkWRow { w_cells : list wcell; w_crlf : bool }.
+
+Fixpoint escape_quotes (f : list Z) : list Z :=
+  match f with
+  | [] => []
+  | c :: r => if c =? QUOTE then QUOTE :: QUOTE :: escape_quotes r else c :: escape_quotes r
+  end.
+
+Definition write_cell (c : wcell) : list Z :=
+  if w_quoted c then QUOTE :: escape_quotes (w_text c) ++ [QUOTE] else w_text c.
+
+Fixpoint write_cells (cs : list wcell) : list Z :=
+  match cs with
+  | [] => []
+  | [c] => write_cell c
+  | c :: r => write_cell c ++ COMMA :: write_cells r
+  end.
+
+Definition write_eol (crlf : bool) : list Z := if crlf then [CR; LF] else [LF].
+
+Fixpoint write_rows (rows : list wrow) : list Z :=
+  match rows with
+  | [] => []
+  | r :: rest => write_cells (w_cells r) ++ write_eol (w_crlf r) ++ write_rows rest
+  end.
+
+(* rows, then possibly a last row without terminator; bom: the file starts with a byte order mark *)
+Definition write_file (bom : bool) (rows : list wrow) (last : option (list wcell)) : list Z :=
+  (if bom then [BOMC] else []) ++ write_rows rows ++
+  match last with Some cs => write_cells cs | None => [] end.
+
+(* when a cell may be written bare: no comma, quote, CR, LF in it, and it is not the empty only
+   cell of its row (that would be a blank line) *)
+Definition plain_char (c : Z) : bool :=
+  negb ((c =? COMMA) || (c =? QUOTE) || (c =? CR) || (c =? LF)).
+
+Definition is_blank_text (t : list Z) : bool := match t with [] => true | _ => false end.
+
+Definition cell_ok (alone : bool) (c : wcell) : bool :=
+  (Z.of_nat (length (w_text c)) <=? FIELD_LIMIT) &&
+  (w_quoted c || (forallb plain_char (w_text c) && negb (alone && is_blank_text (w_text c)))).
+
+
+(* the cells of a row: a single cell counts as alone *)
+Definition cells_ok (cs : list wcell) : bool :=
+  match cs with
+  | [c] => cell_ok true c
+  | _ => forallb (cell_ok false) cs
+  end.
+
+Definition row_ok (r : wrow) : bool := cells_ok (w_cells r).
+
+Definition row_texts (cs : list wcell) : list (list Z) := map w_text cs.
+
+(* without a byte order mark the text itself must not start with U+FEFF (utf-8-sig would take it
+   for one) *)
+Definition bom_ok (bom : bool) (body : list Z) : bool :=
+  bom || match body with c :: _ => negb (c =? BOMC) | [] => true end.
+
 Definition row_eqb (a b : row rec (list Z)) : bool :=
   Nat.eqb (r_tid a) (r_tid b) &&
   option_eqb rec_eqb (r_fe _ _ a) (r_fe _ _ b) &&
   (r_index _ _ a =? r_index _ _ b) &&
-  list_eqb (fun p q => Nat.eqb (fst p) (fst q) && rec_eqb (snd p) (snd q)) (r_cons _ _ a) (r_cons _ _ b) &&
+  list_eqb (fun p q => key_eqb (fst p) (fst q) && rec_eqb (snd p) (snd q)) (r_cons _ _ a) (r_cons _ _ b) &&
   list_eqb (list_eqb Z.eqb) (r_pass _ _ a) (r_pass _ _ b).
 
 (* The comparison is per template: the order of rows of one template is what C17 speaks
@@ -390,16 +657,60 @@ Definition outcome_eqb (tids : list nat) (a b : list (row rec (list Z)) * option
   list_eqb row_eqb (by_template tids (fst a)) (by_template tids (fst b)) &&
   option_eqb err_eqb (snd a) (snd b).
 
+(* a CSV file of a case: its text (code points, with the byte order mark if the file has one),
+   what csv.reader returns for it, and — when no row is longer than the header — the header and the
+   records the dataset iterators deliver *)
+Record csvfile := mkFile {
+  f_text : list Z;
+  f_rows : list (list (list Z));
+  f_recs : option (option (list (list Z)) * list rec)
+}.
+
+Definition rows_eqb : list (list (list Z)) -> list (list (list Z)) -> bool :=
+  list_eqb (list_eqb (list_eqb Z.eqb)).
+
+Definition file_ok (f : csvfile) : bool :=
+  result_eqb rows_eqb (csv_rows (f_text f)) (Ok (f_rows f)) &&
+  match f_recs f with
+  | None => true
+  | Some (h, rs) =>
+    result_eqb (fun a b => option_eqb (list_eqb (list_eqb Z.eqb)) (fst a) (fst b) &&
+                           list_eqb rec_eqb (snd a) (snd b))
+               (csv_records (f_text f)) (Ok (h, rs))
+  end.
+
+(* the records a linear CSV iterator delivers before it stops or fails on a row that is longer
+   than the header *)
+Fixpoint delivered (l : list (result rec)) : list rec * bool :=
+  match l with
+  | [] => ([], false)
+  | Ok r :: rest => let '(rs, failed) := delivered rest in (r :: rs, failed)
+  | Err _ :: _ => ([], true)
+  end.
+
 Inductive case :=
-| CRun (iters : nat) (ts : tmpls rec) (orc : list Z) (tids : list nat)
+| CRun (files : list csvfile) (iters : nat) (ts : tmpls rec) (orc : list Z) (tids : list nat)
        (exp_rows : list (row rec (list Z))) (exp_err : option err)
-| CUpdate (ts : tmpls rec) (input : list rec) (passthrough : list nat) (orc : list Z)
-          (tids : list nat) (exp_rows : list (row rec (list Z))) (exp_err : option err).
+| CUpdate (files : list csvfile) (ts : tmpls rec) (input : list rec) (passthrough : list nat) (orc : list Z)
+          (tids : list nat) (exp_rows : list (row rec (list Z))) (exp_err : option err)
+(* an arbitrary text read by csv.reader (exp_rows) and, if the header names are distinct, drained
+   through CSVDatasetLinearIterator (records delivered, whether it ended in a DataGenError) *)
+| CCsv (text : list Z) (exp_rows : list (list (list Z))) (exp_recs : option (list rec * bool)).
 
 Definition check_case (c : case) : bool :=
   match c with
-  | CRun iters ts orc tids rows e =>
+  | CRun files iters ts orc tids rows e =>
+    forallb file_ok files &&
     outcome_eqb tids (run_recipe rec (list Z) rec_col iters ts orc) (rows, e)
-  | CUpdate ts input pt orc tids rows e =>
+  | CUpdate files ts input pt orc tids rows e =>
+    forallb file_ok files &&
     outcome_eqb tids (run_update rec (list Z) rec_col ts input pt orc) (rows, e)
+  | CCsv text rows recs =>
+    result_eqb rows_eqb (csv_rows text) (Ok rows) &&
+    match recs with
+    | None => true
+    | Some (rs, failed) =>
+      let '(rs', failed') := delivered (snd (dict_reader rows)) in
+      list_eqb rec_eqb rs' rs && Bool.eqb failed' failed
+    end
   end.
